@@ -1,0 +1,30 @@
+//go:build verif
+
+package filecache
+
+import "os"
+
+// VerifEntry describes one handle known to the cache.
+type VerifEntry struct {
+	Name    string
+	File    *os.File
+	Refs    int
+	Removed bool
+}
+
+// VerifState returns the cached entries (LRU order, most recent first) and the
+// removed-but-referenced handles (verification-only accessor, build tag verif).
+func (c *FileCache) VerifState() (capacity int, entries []VerifEntry) {
+	c.lock.Lock()
+	defer c.lock.Unlock()
+	if c.ll != nil {
+		for e := c.ll.Front(); e != nil; e = e.Next() {
+			ent := e.Value.(*entry)
+			entries = append(entries, VerifEntry{Name: ent.file.Name(), File: ent.file, Refs: ent.refs})
+		}
+	}
+	for f, refs := range c.removed {
+		entries = append(entries, VerifEntry{Name: f.Name(), File: f, Refs: refs, Removed: true})
+	}
+	return c.capacity, entries
+}
